@@ -1724,6 +1724,11 @@ impl<T: Transport + 'static> SyncEngine<T> {
                 .to_path_buf();
 
             // Build corresponding source path (a source DIRECTORY of that name is no counterpart)
+            // sy's own files in the destination root are not part of the mirrored tree
+            if is_sy_metadata(&rel_path) {
+                continue;
+            }
+
             // (looked at without following a symbolic link there)
             let source_path = source.join(&rel_path);
             if std::fs::symlink_metadata(&source_path).map_or(true, |m| m.is_dir()) {
